@@ -37,7 +37,7 @@ def gen_recipe(rng, far_col=(300, 16384), far_row=(500, 3000)):
         if rng.random() < 0.08:
             cells['1,%d' % rng.choice(far_row)] = 'far'
         sheets.append(cells)
-    return {'sheets': sheets}
+    return {'sheets': sheets, 'chart_at': rng.choice([None, None, None, 0, 1])}
 
 
 def make_case(rc, k=[0]):
@@ -56,6 +56,13 @@ def make_case(rc, k=[0]):
             ws['%s%d' % (get_column_letter(c), r)] = val
             m[(c, r)] = val
         planted.append(m)
+    if rc.get('chart_at') is not None:
+        # a chart sheet in the tab order: a sheet name that is not a worksheet; titles and indices are those of the worksheets only
+        from openpyxl.chart import BarChart, Reference
+        cs = wb.create_chartsheet('Chart', min(rc['chart_at'], len(rc['sheets'])))
+        ch = BarChart()
+        ch.add_data(Reference(wb.worksheets[0], min_col=1, min_row=1, max_row=2))
+        cs.add_chart(ch)
     k[0] += 1
     path = os.path.join(DIR, 'r%d_%d.xlsx' % (os.getpid(), k[0] % 4))
     wb.save(path)
